@@ -38,7 +38,7 @@ RULE = ("seeded programs of 1-3 caller threads x up to 8 operations (construct a
         "constructor with a second thread building the same class in the window. Non-trivial = "
         "multi-threaded run with at least one pre-emption inside library code, or a sequential run with two different classes; "
         "distinct = event digest (includes the switch sequence at file:line)")
-ENUMERATED_NOTE = "(1) ordered pairs (A, B) of the 42 command classes, sequential: build A, build B, decode own CDB with A, re-encode, recheck A; (2) two threads on one shared facade+device, one call each: every single pre-emption point of the first call (700 step positions) x 3 (quick) / 8 (thorough) call pairs x 2 transports, the second thread running its whole call inside the window; (3) for each of the 42 classes: two threads construct the same class with differently shaped arguments, the first pre-empted at every (thorough) / every third (quick) step of its constructor (17.9k / 6k windows), the second building, encoding and decoding inside the window"
+ENUMERATED_NOTE = "(1) ordered pairs (A, B) of the 42 command classes, sequential: build A, build B, decode own CDB with A, re-encode, recheck A; (2) two threads on one shared facade+device, one call each: every single pre-emption point of the first call (700 step positions) x 3 (quick) / 8 (thorough) call pairs x 2 transports, the second thread running its whole call inside the window; (3) for each of the 42 classes: two threads construct the same class with differently shaped arguments, the first pre-empted at every (thorough) / every third (quick) step of its constructor (17.9k / 6k windows), the second building, encoding and decoding inside the window; (4) for the five parameter-list constructors (EXTENDED COPY SPC-4/5, PERSISTENT RESERVE OUT, MODE SELECT 6/10): the same windows with the second thread decoding / re-encoding INQUIRY page 83h, mode pages and READ FULL STATUS data and building an INQUIRY (classes whose tables those constructors share)"
 COMPONENTS = {"real": ["all command classes", "SCSICommand", "converter", "SCSI facade + SCSIDevice for facade ops"],
               "stubs": ["sgio module", "virtual /dev", "threading.Lock/RLock replaced by cooperative locks (library uses none today)"],
               "simulated_peers": ["t10.targets.BlockLU per thread", "baton thread scheduler deciding every interleaving"]}
@@ -355,8 +355,38 @@ def ctor_windows(tier):
     return _CTOR_TABLE[tier]
 
 
+HEAVY = ["ExtendedCopy4", "ExtendedCopy5", "PersistentReserveOut", "ModeSelect6", "ModeSelect10"]
+_PROBE_TABLE = {}
+
+
+def probe_windows(tier):
+    """[(class, step)]: the pre-emption points of the constructors that marshal parameter lists, for the cross-class probes"""
+    if tier not in _PROBE_TABLE:
+        stride = 1 if tier == "thorough" else 3
+        _PROBE_TABLE[tier] = [(n, st) for n in HEAVY for st in range(1, CTOR_STEPS[n], stride)]
+    return _PROBE_TABLE[tier]
+
+
 def enumerated_count(tier):
-    return (42 * 42 if tier == "thorough" else 42 * 6) + n_pairs(tier) * S_MAX * 2 + len(ctor_windows(tier))
+    return (42 * 42 if tier == "thorough" else 42 * 6) + n_pairs(tier) * S_MAX * 2 + len(ctor_windows(tier)) + len(probe_windows(tier))
+
+
+def enumerated_probe_window(k, tier):
+    """thread 0 is pre-empted at step s of a parameter-list constructor; inside the window thread 1 uses OTHER classes whose tables such
+    a constructor borrows (designation descriptors of INQUIRY page 83h, mode pages, TransportIDs): every result as when run alone"""
+    name, st = probe_windows(tier)[k]
+    rng = random.Random(NAMES.index(name) * 104729 + 5)
+    vpd83 = R.vpd_device_id(0, [R.designation_descriptor(1, 0, 3, R.naa6(0x589CFC, 7, 0x1122334455667788)),
+                                R.designation_descriptor(1, 1, 4, R.be(2, 4), piv=1, proto=5),
+                                R.designation_descriptor(3, 2, 8, b"iqn.2026-10.verif:probe\0", piv=1, proto=5)])
+    ops = [dict(op="construct", thread=0, **_shaped(name, rng, True)), {"op": "recheck", "thread": 0, "slot": 0},
+           {"op": "roundtrip_datain", "thread": 1, "cls": "Inquiry", "buf": bytes(vpd83).hex(), "dkw": {"evpd": 1}, "tw": gen_ctor(rng, "Inquiry")},
+           {"op": "unmarshall_datain", "thread": 1, "cls": "ModeSense10", "buf": bytes(_mode_sense10_answer(rng)).hex(), "dkw": {}, "tw": gen_ctor(rng, "ModeSense10")},
+           {"op": "unmarshall_datain", "thread": 1, "cls": "PersistentReserveInReadFullStatus", "buf": bytes(DATAIN["PersistentReserveInReadFullStatus"](rng)[0]).hex(), "dkw": {},
+            "tw": gen_ctor(rng, "PersistentReserveInReadFullStatus")},
+           dict(op="construct", thread=1, **gen_ctor(rng, "Inquiry")), {"op": "decode_own", "thread": 1, "slot": 0}]
+    return {"property": ID, "config": {"strategy": {"kind": "replay", "p_op": 0.0}, "sched_seed": 0},
+            "schedule": [[0, 0], [st + 2, 1]], "ops": ops}
 
 
 def _shaped(name, rng, big):
@@ -419,6 +449,8 @@ def enumerated_atomicity(k, tier):
 
 def enumerated(k, tier):
     base = 42 * 42 if tier == "thorough" else 42 * 6
+    if k >= base + n_pairs(tier) * S_MAX * 2 + len(ctor_windows(tier)):
+        return enumerated_probe_window(k - base - n_pairs(tier) * S_MAX * 2 - len(ctor_windows(tier)), tier)
     if k >= base + n_pairs(tier) * S_MAX * 2:
         return enumerated_ctor_window(k - base - n_pairs(tier) * S_MAX * 2, tier)
     if k >= base:
